@@ -2,6 +2,7 @@
 import os
 
 import gen_evtimeout
+import gen_evwake
 import gen_locktable
 import threadlib
 import vlib
@@ -9,7 +10,7 @@ import vlib
 ID = "C11"
 IMPORTS = ["CaresProps.C11"]
 LEAN_TARGETS = ["CaresProps.C11"]
-GENERATORS = [gen_locktable.gen_locktable, gen_evtimeout.gen_evtimeout]
+GENERATORS = [gen_locktable.gen_locktable, gen_evtimeout.gen_evtimeout, gen_evwake.gen_evwake]
 THEOREMS = vlib.discover_theorems("CaresProps/C11.lean") + [
     "Cares.C07b.lockInv_step", "Cares.C07b.lockInv_init", "Cares.C07b.covered_step"]
 TRUSTED = [
